@@ -269,6 +269,13 @@ def run_slots(shard, spec):
                 nn = b[off] | (b[off + 1] << 8)
                 for d in (0, 1):
                     patches.setdefault((nn + d) & 0xFFFF, rng.randrange(256))
+            if b[0] == 0xED and b[1] & 0xE4 == 0xA0:
+                # block instructions: aim at the values that decide the repeat and the flags (BC/B = 1, 2, 0; C = 0x00/0xFF
+                # for the IN/OUT blocks' carry rule; the compare finds A at (HL))
+                if rng.random() < 0.5:
+                    regs[2], regs[3] = rng.choice([(0, 1), (0, 2), (0, 0), (1, 0), (1, 1), (2, 0xFF), (1, 0xFF), (0xFF, 0x00), (0, 0xFF)])
+                if b[1] & 0x03 == 0x01 and rng.random() < 0.5:
+                    patches[(regs[6] * 256 + regs[7]) & 0xFFFF] = regs[0]
             for i, x in enumerate(b):
                 patches[(addr + i) & 0xFFFF] = x
             rp = {'part': 'slots', 'seq': b, 'regs': regs, 'addr': addr}
